@@ -33,6 +33,7 @@ def run(prog: Program, rep: Report, tier: str):
     rep.rule("R16.3", "get(): KeyError-covering handler, hit returned, default on miss", floor=3)
     rep.rule("R16.4", "memo write only of the looked-up value under the queried key; no other mutation", floor=2)
     rep.rule("R16.5", "dict subclass without shadowing hooks", floor=2)
+    rep.rule("R16.6", "the forward reference built for a key names that key (refs.forwardref rules, shared with R11.7)", floor=5)
     cls = prog.cls(f"{MOD}.TypeContext")
     miss = cls.methods.get("__missing__")
     if miss is None:
@@ -99,6 +100,13 @@ def run(prog: Program, rep: Report, tier: str):
                     covers = covers or oracle.exc_covered("builtins.KeyError", names)
         rep.check(covers, "R16.3", g.qualname, g.loc, "the lookup runs under a handler that covers KeyError", "KeyError from the lookup escapes get()", detail="handler")
         rep.check(bool(miss_paths) and all(p.exit[1] == dflt for p in miss_paths), "R16.3", g.qualname, g.loc, "a miss returns the default", "a miss does not return the caller's default", detail="default")
+    from ..report import Report as _R, absorb
+    from . import c11
+
+    sub = _R("C16", tier)
+    sub.rule("R16.6", "", 0)
+    c11.r11_7(prog, sub, rule="R16.6")
+    absorb(rep, sub, {"R16.6": "R16.6"})
     # R16.5
     bases = prog.external_bases(cls)
     rep.check("builtins.dict" in bases, "R16.5", cls.qualname, cls.loc, "TypeContext is a dict", f"TypeContext is not a dict subclass (bases {bases})", detail="dict")
